@@ -33,8 +33,10 @@ NOTES = [
     "oracle for them is written from the property text: a sub-pattern derived from the bound subtree must be found "
     "and bind every placeholder - a fresh one, a _var_ the inherited match bound to the same identifier, an __expr__ "
     "NAME the inherited match had bound to something else - to what it replaced",
-    "report state between calls (the parse cache, cait['success']) is not modelled; the search asks the same "
-    "question again after CAIT was given an unparsable text on the same report",
+    "report state between calls (the parse cache, cait['ast'] / cait['success'], the Source tool's tree) is not "
+    "modelled; the search asks the same question again after CAIT was given an unparsable text on the same report, and "
+    "asks derived patterns as steps of random and small-scope exhaustive HISTORIES on one report (every judged step is "
+    "also compared with the model's answer for the program that step asked about)",
 ]
 REFUTED = [{"statement": "Pedal.Cait.C11_GeneraliseAnyMatching_Full",
             "refuted_by": "#guard witness in PedalProofs/C11.lean (x[a+b:] / x[___:] on x[:a+b]), evaluated on the "
